@@ -40,6 +40,9 @@ def build_sims():
         sims.append(("Elastic", 3, 3, Simulations.Elastic(m3, el3, verbosity=False)))
         for m in ambiguous:
             sims.append(("Elastic", 2, 2, Simulations.Elastic(m, el2, verbosity=False)))
+        from harness.props.c03 import _mixed_elastic
+
+        sims.append(("Elastic", 2, 2, _mixed_elastic()))  # TRI3 + QUAD4 groups (and SEG2 edges) in one mesh
         sims.append(("Thermal", 2, 1, Simulations.Thermal(ambiguous[2], Models.Thermal(k=2.0, c=1.0), verbosity=False)))
         sims.append(("Thermal", 2, 1, Simulations.Thermal(m2, Models.Thermal(k=2.0, c=1.0), verbosity=False)))
         try:
@@ -237,8 +240,10 @@ def derived(ctx):
 
     rng = np.random.default_rng(ctx.seed + 9)
     with quiet():
-        for et in (ElemType.TRI3, ElemType.QUAD4, ElemType.TRI6, ElemType.QUAD8):
-            mesh = _grid_mesh(3, 2, et, L=1.5)
+        from harness.props.c03 import _mixed_elastic
+
+        for et in (ElemType.TRI3, ElemType.QUAD4, ElemType.TRI6, ElemType.QUAD8, "mixed"):
+            mesh = _grid_mesh(3, 2, et, L=1.5) if et != "mixed" else _mixed_elastic().mesh
             mat = Models.Elastic.Isotropic(2, E=10.0, v=0.3, planeStress=True, thickness=0.7)
             sim = Simulations.Elastic(mesh, mat, verbosity=False)
             u = rng.uniform(-1, 1, mesh.Nn * 2) * 1e-2
@@ -256,6 +261,8 @@ def derived(ctx):
             a2 = sim.Results_Reshape_values(cn, False)
             if not (np.allclose(a1, 3.25) and np.allclose(a2, 3.25)):
                 ctx.violation(f"const-conversion/{et}", f"node<->element conversion does not preserve a constant field on {et}", {"elem": str(et)})
+            if et == "mixed":
+                continue
             # reactions on a fully constrained boundary balance the applied loads
             sim.Bc_Init()
             left = mesh.Nodes_Conditions(lambda x, y, z: x == 0)
